@@ -90,6 +90,18 @@ def verify_contract(args):
         except (Unsupported, PathLimit) as e:
             out["status"] = "unsupported"
             out["msg"] = str(e)
+            # the function left the verified subset (typically: it was rewritten). The contract text is still executable: run it on the
+            # real function over the native generator, so that a rewrite which breaks the postcondition is a violation with an input
+            # and not merely "undecided"
+            if c.native and shard == 0:
+                try:
+                    argmap, o, tried, valid = native.search_violation(c, rseed + 2, 2000 if tier == "quick" else 20000)
+                    out["native"] = {"tried": tried, "valid": valid, "violation": None}
+                    if argmap is not None:
+                        out["native"]["violation"] = {"inputs": repr(argmap), "failed": o.failed,
+                                                      "gen_replay": {"seed": rseed + 2, "index": native.LAST_INDEX[0]}}
+                except Exception as e2:
+                    out["native"] = {"error": "%s: %s" % (type(e2).__name__, e2), "tb": traceback.format_exc()[-800:]}
             return out
         except front.Missing as e:
             out["status"] = "missing"
@@ -503,6 +515,19 @@ def summarize(pid, tier, seed, results, wall):
             unsupported.append({"function": fq, "reason": r["msg"]})
             lines.append("UNDECIDED property=%s function=%s outside the verified subset: %s" % (pid, fq, r["msg"]))
             bump(2)
+            natu = r.get("native") or {}
+            native_evals += natu.get("valid", 0) or 0
+            if natu.get("violation"):
+                v = natu["violation"]
+                if match_known(known, pid, fq, {"inputs": v["inputs"], "obligation": fq}):
+                    continue
+                name = fq.split(":")[1] + ".contract_on_real_function"
+                path = write_replay(pid, name, {"property": pid, "function": fq, "inputs": v["inputs"], "native_failed": v["failed"],
+                                                "gen_replay": v.get("gen_replay"), "obligation": name,
+                                                "from": "the function is outside the verified subset; its contract, evaluated on the real function, fails on this input"})
+                lines.append("VIOLATION property=%s replay=%s" % (pid, path))
+                violations += 1
+                bump(1)
             continue
         if r.get("fingerprint"):
             functions.append(r["fingerprint"])
